@@ -196,6 +196,10 @@ func zeroOf(sort string) Term {
 	}
 	if strings.HasPrefix(sort, "(Array Int ") {
 		elem := strings.TrimSuffix(strings.TrimPrefix(sort, "(Array Int "), ")")
+		if elem == SRef || elem == SStr {
+			// uninterpreted constants are not values (cvc5 rejects them in constant arrays)
+			return Term{"zeroarr_Int_" + elem, sort}
+		}
 		return Term{"((as const " + sort + ") " + zeroOf(elem).S + ")", sort}
 	}
 	panic("zeroOf: " + sort)
